@@ -344,10 +344,14 @@ func (p *pool) run() {
 					c := crash{Task: *t, Stderr: headTail(w.stderr, 3000)}
 					if jb, e := os.ReadFile(w.journal); e == nil {
 						var j struct {
-							Prefix []int `json:"prefix"`
+							Prefix []int          `json:"prefix"`
+							Params explore.Params `json:"params"`
 						}
 						if json.Unmarshal(jb, &j) == nil {
 							c.Prefix = j.Prefix
+							if j.Params != nil {
+								c.Task.Params = j.Params
+							}
 						}
 					}
 					w.stop()
@@ -355,6 +359,20 @@ func (p *pool) run() {
 					p.a.mu.Lock()
 					p.a.crashes = append(p.a.crashes, c)
 					p.a.mu.Unlock()
+					if len(t.Batch) > 0 {
+						// re-queue the cases of the batch that come after the one that killed the worker
+						// (results of the earlier ones are lost with the worker: re-queue them too, minus the culprit)
+						var rest []explore.Params
+						ck := c.Task.Params.Key()
+						for _, ps := range t.Batch {
+							if ps.Key() != ck {
+								rest = append(rest, ps)
+							}
+						}
+						if len(rest) > 0 && len(rest) < len(t.Batch) {
+							p.push(&explore.Task{Scen: t.Scen, Batch: rest, Known: t.Known})
+						}
+					}
 				} else {
 					if r.Err != "" {
 						p.fail(fmt.Errorf("worker: %s", r.Err))
@@ -422,7 +440,7 @@ func confirm(b *built, f *explore.Found, trace bool) (*explore.Found, string) {
 	defer w.stop()
 	r, err := w.do(&explore.Task{Scen: f.Scen, Params: f.Params, Prefix: f.Choices, Depth: 0, Trace: trace})
 	if err != nil {
-		return nil, "worker died: " + tail(w.stderr, 4000)
+		return nil, "worker died: " + headTail(w.stderr, 2500)
 	}
 	if len(r.Found) == 0 {
 		return nil, ""
